@@ -28,9 +28,15 @@ Desugar(x) ==
     [] x.k \in {"DifferenceExtension", "DifferenceIntension"} -> [k |-> x.k, a |-> Desugar(x.a), b |-> Desugar(x.b)]
     [] x.k \in CopKinds -> IF "p" \in DOMAIN x THEN [k |-> x.k, p |-> {Desugar(e) : e \in x.p}]
                            ELSE MkStatement(x.k, Desugar(x.a), Desugar(x.b))  \* {-- --] {-] wrap in one-element sets, <\> swaps into </>
+\* a fixed stamp denotes the signed decimal value of its text: an explicit "+", leading zeros and "-0" are surface forms
+SignedValue(raw) == LET c == Chars(raw)
+                        neg == c[1] = "-"
+                        d == StripLeadingZeros(IF c[1] \in {"+", "-"} THEN Tail(c) ELSE c)
+                    IN SugarStr((IF neg /\ d # <<"0">> THEN <<"-">> ELSE <<>>) \o d)
+DesugarStamp(st) == IF st.k = "Fixed" THEN [st EXCEPT !.n = SignedValue(@)] ELSE st
 DesugarN(n) == CASE n.kind = "term" -> [kind |-> "term", v |-> Desugar(n.v)]
-                 [] n.kind = "sentence" -> [kind |-> "sentence", v |-> [n.v EXCEPT !.t = Desugar(@)]]
-                 [] n.kind = "task" -> [kind |-> "task", v |-> [n.v EXCEPT !.s.t = Desugar(@)]]
+                 [] n.kind = "sentence" -> [kind |-> "sentence", v |-> [n.v EXCEPT !.t = Desugar(@), !.st = DesugarStamp(@)]]
+                 [] n.kind = "task" -> [kind |-> "task", v |-> [n.v EXCEPT !.s.t = Desugar(@), !.s.st = DesugarStamp(@)]]
 
 \* ---------------------------------------------------------------- the sugar universe
 Derived == {"Instance", "Property", "InstanceProperty", "EquivalenceRetrospective"}
